@@ -48,7 +48,7 @@ def main():
                 for i, l in enumerate(lines):
                     if l.startswith("VIOLATION"):
                         details.append(" | ".join(x.strip() for x in lines[i + 1:i + 4]))
-                if rr.returncode not in (0, 1) or (rr.returncode == 1 and not viol):
+                if rr.returncode not in (0, 1) or (rr.returncode == 1 and not viol) or "rule X.internal" in rr.stdout:
                     errors[c] = {"exit": rr.returncode, "error": rr.stdout[-400:]}      # a crashed check detects nothing
                 elif viol:
                     hits[c] = {"exit": rr.returncode, "violations": len(viol), "first": details[:3]}
